@@ -6,6 +6,8 @@ watch result, a captured return value and a captured raised exception.  Oracle: 
 snapshot action, convertible to the wire message, sentinels intact, every local has an entry, snapshots
 do not share tables, iterators are not consumed.
 """
+import sys
+
 from hypothesis import strategies as st
 
 from vf import lab, values, oracle
@@ -109,6 +111,9 @@ class C06(Prop):
             'self_local': st.sampled_from([None, None, None, 0, 1]),
             'frame_types': st.lists(st.sampled_from(['single_frame', 'all_frame', 'no_frame', 'single_frame']),
                                     min_size=4, max_size=4),
+            # frames left below the recursion limit when the hit arrives (None: plenty)
+            'headroom': st.one_of(st.none(), st.none(), st.none(), st.none(), st.none(), st.none(), st.none(),
+                                  st.integers(3, 90)),
         })
 
     def run_case(self, recipe):
@@ -207,7 +212,35 @@ class C06(Prop):
                 raise lab.HarnessError('install failed in C06: %r' % (e,))
             handler, cfg, _ = lab.make_handler(triggers, plugins=[metric_proc, logger], push=push)
             gen = lab.frame_at(path, line, 'target', frame_locals, globs={'SLOW': SLOW, '__name__': 'c06_target'})
+            headroom = recipe.get('headroom')
             try:
+                if headroom:
+                    # the hit arrives when the application has used up its stack but for a few frames (a recursion
+                    # about to hit the limit): the agent may not be able to do its work, it must still not raise
+                    out.cls('hit_near_recursion_limit')
+                    raised = []
+
+                    def hit():
+                        try:
+                            handler.trace_call(gen.gi_frame, 'line', None)
+                        except BaseException as e:      # noqa
+                            raised.append(e)
+
+                    def dive(n):
+                        return hit() if n <= 0 else dive(n - 1)
+                    here, f = 0, sys._getframe()
+                    while f is not None:
+                        here, f = here + 1, f.f_back
+                    try:
+                        dive(sys.getrecursionlimit() - here - headroom)
+                    except RecursionError:
+                        pass            # not even the call of the trace function fitted: nothing was asked of the agent
+                    if raised:
+                        out.violate('trace_call raised %s with little stack left' % type(raised[0]).__name__,
+                                    {'headroom': headroom})
+                    gen.close()
+                    lab.reset_world()
+                    return out
                 handler.trace_call(gen.gi_frame, 'line', None)
             except BaseException as e:      # noqa
                 out.violate('trace_call raised %s' % lab.exc_bucket(e))
